@@ -145,6 +145,33 @@ def main():
                 ("unknown-resource", ["--quiet", "report", os.path.join(data, "unknownres.tjp")], None, (0, 2))):
             one(label, args, stdin, rc)
         if prop == "C20":
+            # --output: exactly the requested file appears, nothing else in the working directory is created, changed or removed
+            for label, pre, args, expect in (
+                    ("output-file", {"results.tmp": b"user data", "notes.txt": b"x"}, ["--quiet", "report", "--output", "results.json", paths["lf"]],
+                     {"results.tmp": b"user data", "notes.txt": b"x", "results.json": None}),
+                    ("output-csv", {"out.tmp": b"keep"}, ["--quiet", "report", "--csv", "-o", "out.csv", paths["lf"]],
+                     {"out.tmp": b"keep", "out.csv": None}),
+                    ("output-is-directory", {"reports": None}, ["--quiet", "report", "--force", "-o", "reports", paths["lf"]], {"reports": "dir"})):
+                cwd, tmp = tempfile.mkdtemp(dir=base, prefix="ocwd_"), tempfile.mkdtemp(dir=base, prefix="otmp_")
+                for nm, content in pre.items():
+                    if content is None:
+                        os.makedirs(os.path.join(cwd, nm))
+                    else:
+                        open(os.path.join(cwd, nm), "wb").write(content)
+                rc, out, err = run(args, None, cwd, tmp)
+                evals += 1
+                nontriv.add(label)
+                now = {}
+                for nm in sorted(os.listdir(cwd)):
+                    fp = os.path.join(cwd, nm)
+                    now[nm] = "dir" if os.path.isdir(fp) else open(fp, "rb").read()
+                bad = [nm for nm in set(now) | set(expect) if (nm not in now) or (nm not in expect) or
+                       (expect[nm] is not None and expect[nm] != now[nm])]
+                if label == "output-is-directory":
+                    bad = [nm for nm in now if nm != "reports"] + ([] if now.get("reports") == "dir" else ["reports"])
+                if bad or os.listdir(tmp):
+                    fails.append({"clause": "C20:output-side-effects", "key": label, "input": label,
+                                  "detail": f"exit {rc}; working directory now {sorted(now)}, unexpected/changed/missing: {sorted(bad)}; TMPDIR {os.listdir(tmp)}"})
             # concurrent batch in ONE working directory with ONE TMPDIR
             n = 6 if TIER == "quick" else 16
             cwd, tmp = tempfile.mkdtemp(dir=base, prefix="ccwd_"), tempfile.mkdtemp(dir=base, prefix="ctmp_")
